@@ -612,8 +612,8 @@ class Prop(Check):
         "RuleTypes.C03_pinned_result_false",
     ]
     DRIVER = "Drivers/RuleTypes.lean"
-    QUICK_CASES = 600
-    THOROUGH_CASES = 30000
+    QUICK_CASES = 380
+    THOROUGH_CASES = 12000
     RULE = ("grammars of 2..8 rules (common / abstract / match by construction; forward and backward references, "
             "cycles and self references of abstract rules, alias rules, nested choices, mixed match/common "
             "alternatives, ~15% with optional / repeated parts) with 3 derived + 1 mutated text each; non-trivial = "
